@@ -4,6 +4,7 @@ import (
 	"encoding/json"
 	"fmt"
 	"reflect"
+	"strings"
 
 	"github.com/go-openapi/spec"
 
@@ -92,6 +93,32 @@ func c10Run(env *core.Env, idx int) core.CaseResult {
 		o.HTTP = rng.Intn(3) == 0
 	}
 	w := gen.GenWorld(rng, o)
+	if !multi {
+		// an element whose schema names itself with an (absolute) id and refers to the root below it: "#/..." still means the root
+		if rd, ok := w.Docs[w.Root].(map[string]interface{}); ok {
+			defs, _ := rd["definitions"].(map[string]interface{})
+			if defs != nil {
+				defs["leafdef"] = map[string]interface{}{"title": "leaf definition", "type": "object"}
+				idSchema := func(tag string) map[string]interface{} {
+					return map[string]interface{}{"id": "http://ids.example/c10/" + tag + ".json", "title": "schema with id (" + tag + ")",
+						"properties": map[string]interface{}{"a": map[string]interface{}{"$ref": "#/definitions/leafdef"}}}
+				}
+				ps, _ := rd["parameters"].(map[string]interface{})
+				if ps == nil {
+					ps = map[string]interface{}{}
+					rd["parameters"] = ps
+				}
+				ps["withid"] = map[string]interface{}{"name": "withid", "in": "body", "description": "parameter whose schema has an id", "schema": idSchema("p")}
+				rs, _ := rd["responses"].(map[string]interface{})
+				if rs == nil {
+					rs = map[string]interface{}{}
+					rd["responses"] = rs
+				}
+				rs["withid"] = map[string]interface{}{"description": "response whose schema has an id", "schema": idSchema("r")}
+				res.Count("element-with-id-scoped-schema", 2)
+			}
+		}
+	}
 	in := oworld(w)
 	res.Hash = core.HashOf(w.Docs)
 	rootText, _ := json.Marshal(w.Docs[w.Root])
@@ -195,6 +222,11 @@ func c10Run(env *core.Env, idx int) core.CaseResult {
 			}})
 		}
 		for _, e := range entries {
+			if strings.HasSuffix(st.St.Ptr, "/withid") && !(e.name == "ExpandParameterWithRoot" || e.name == "ExpandResponseWithRoot") {
+				// under an id, "#/..." read through a base location designates the id-scoped document; only the entry points that are
+				// given the root document itself ("based on a root document") are expected to read it in that root
+				continue
+			}
 			for _, rootKind := range []string{"typed", "generic"} {
 				takesRoot := e.name == "ExpandSchema" || e.name == "ExpandParameterWithRoot" || e.name == "ExpandResponseWithRoot"
 				if !takesRoot && rootKind == "generic" {
@@ -358,7 +390,7 @@ func init() {
 		Run:      c10Run,
 		Floors: func(env *core.Env) []string {
 			return []string{"entry.ExpandSchema", "entry.ExpandSchemaWithBasePath", "entry.ExpandParameterWithRoot", "entry.ExpandParameter", "entry.ExpandResponseWithRoot", "entry.ExpandResponse",
-				"prefilled-cache", "reused-cache", "kept-refs", "world.cyclic", "world.acyclic"}
+				"prefilled-cache", "reused-cache", "element-with-id-scoped-schema", "kept-refs", "world.cyclic", "world.acyclic"}
 		},
 		Assumptions: []string{"the *WithRoot entry points are documented to reach the root document only: their worlds are single-document",
 			"ExpandParameter/ExpandResponse read documents through the package-level PathLoader, which the worker points at the world for the duration of the call"},
